@@ -161,6 +161,42 @@ int plan_parse(plan_t *p, void *file) {
 	return seen ? -1 : 1;
 }
 
+/* ================================================================= context switch
+ * x86-64 SysV: save the callee-saved registers on the current stack, store the stack pointer, load the other one.
+ * (swapcontext() costs two rt_sigprocmask system calls per switch; the simulation switches ~10^6 times a second.) */
+#if !defined(__x86_64__)
+#  error "lcbsim's context switch is written for x86-64"
+#endif
+void lcb_switch(void **save_sp, void *new_sp);
+__asm__(
+	".text\n"
+	".globl lcb_switch\n"
+	".type lcb_switch,@function\n"
+	"lcb_switch:\n"
+	"	pushq %rbp\n"
+	"	pushq %rbx\n"
+	"	pushq %r12\n"
+	"	pushq %r13\n"
+	"	pushq %r14\n"
+	"	pushq %r15\n"
+	"	subq $8, %rsp\n"
+	"	stmxcsr (%rsp)\n"
+	"	fnstcw 4(%rsp)\n"
+	"	movq %rsp, (%rdi)\n"
+	"	movq %rsi, %rsp\n"
+	"	ldmxcsr (%rsp)\n"
+	"	fldcw 4(%rsp)\n"
+	"	addq $8, %rsp\n"
+	"	popq %r15\n"
+	"	popq %r14\n"
+	"	popq %r13\n"
+	"	popq %r12\n"
+	"	popq %rbx\n"
+	"	popq %rbp\n"
+	"	ret\n"
+	".size lcb_switch,.-lcb_switch\n"
+);
+
 /* ================================================================= stacks */
 #define STACK_SZ   (1024u * 1024u)
 #define GUARD_SZ   (64u * 1024u)
@@ -298,7 +334,7 @@ static void fiber_trampoline(void) {
 #ifdef SIM_ASAN
 	__sanitizer_start_switch_fiber(NULL, NULL, 0); /* fiber is dying */
 #endif
-	swapcontext(&f->ctx, &S.main_ctx);
+	lcb_switch(&f->sp, S.main_sp);
 	abort();
 }
 
@@ -318,11 +354,18 @@ static int fiber_new(void *(*fn)(void *), void *arg, const char *name, int is_po
 	f->stack = g_stacks[f->stack_slot].base + GUARD_SZ;
 	f->stack_sz = STACK_SZ;
 	f->prio = (uint32_t)(rng_next(&S.rng) >> 33) + 1000u;
-	getcontext(&f->ctx);
-	f->ctx.uc_stack.ss_sp = f->stack;
-	f->ctx.uc_stack.ss_size = f->stack_sz;
-	f->ctx.uc_link = NULL;
-	makecontext(&f->ctx, fiber_trampoline, 0);
+	{
+		/* initial frame: lcb_switch "returns" into the trampoline with an ABI-conforming stack */
+		uint64_t *top = (uint64_t *)(void *)(f->stack + f->stack_sz);
+		uint32_t csr = 0x1f80; uint16_t cw = 0x037f;
+		top -= 1;                       /* after the ret into the trampoline rsp = end-8: the ABI's "just called" alignment */
+		top[0] = 0;                     /* fake return address of the trampoline */
+		*(--top) = (uint64_t)(uintptr_t)fiber_trampoline;
+		for (int k = 0; k < 6; k++) *(--top) = 0;   /* rbp rbx r12 r13 r14 r15 */
+		--top;
+		memcpy((char *)top, &csr, 4); memcpy((char *)top + 4, &cw, 2);
+		f->sp = top;
+	}
 	if (S.cur >= 0) f->cur_op = S.fb[S.cur].cur_op;
 	return f->id;
 }
@@ -357,7 +400,7 @@ static void switch_to_main(void) {
 #ifdef SIM_ASAN
 	__sanitizer_start_switch_fiber(&f->asan_fake, NULL, 0);
 #endif
-	swapcontext(&f->ctx, &S.main_ctx);
+	lcb_switch(&f->sp, S.main_sp);
 #ifdef SIM_ASAN
 	__sanitizer_finish_switch_fiber(f->asan_fake, NULL, NULL);
 #endif
@@ -599,10 +642,10 @@ void sim_loop(void) {
 #ifdef SIM_ASAN
 		{ void *fake = NULL;
 		__sanitizer_start_switch_fiber(&fake, f->stack, f->stack_sz);
-		swapcontext(&S.main_ctx, &f->ctx);
+		lcb_switch(&S.main_sp, f->sp);
 		__sanitizer_finish_switch_fiber(fake, NULL, NULL); }
 #else
-		swapcontext(&S.main_ctx, &f->ctx);
+		lcb_switch(&S.main_sp, f->sp);
 #endif
 		S.cur = -1;
 		if (f->st == FB_DONE && !f->revoked) { stack_revoke(f->stack_slot); f->revoked = 1; }
@@ -661,7 +704,7 @@ static void crash_handler(int sig, siginfo_t *si, void *uc) {
 			S.vtime = S.now;
 		}
 		/* abandon the fiber: jump to the scheduler context */
-		setcontext(&S.main_ctx);
+		{ void *dummy; lcb_switch(&dummy, S.main_sp); }
 		_exit(71);
 	}
 	/* a real crash: report and die (driver reconstructs the plan from the run file) */
